@@ -48,6 +48,13 @@ Definition norm (a : vec) : T := osqrt o (norm2 a).
 (* Vec.normalized: vec / norm *)
 Definition normalized (a : vec) : vec := vdiv a (norm a).
 
+(* 2-vectors (Vec(a, b)) used by circumcenter *)
+Definition wadd (a b : T * T) : T * T := (oadd o (fst a) (fst b), oadd o (snd a) (snd b)).
+Definition wsub (a b : T * T) : T * T := (osub o (fst a) (fst b), osub o (snd a) (snd b)).
+Definition wdiv (a : T * T) (k : T) : T * T := (odiv o (fst a) k, odiv o (snd a) k).
+Definition wscale (k : T) (a : T * T) : T * T := (omul o (fst a) k, omul o (snd a) k).
+Definition dot2 (a b : T * T) : T := oadd o (omul o (fst a) (fst b)) (omul o (snd a) (snd b)).
+
 (* Python sum(...) : ((0 + x0) + x1) + ... *)
 Definition ssum (l : list T) : T := fold_left (oadd o) l (o0 o).
 Definition vsum (l : list vec) : vec := fold_left vadd l vzero.
